@@ -1,6 +1,6 @@
 (* The Q instance of the model, as the functions the runner calls. *)
 From Coq Require Import List ZArith QArith Bool.
-From SplipyModel Require Import Model.Num Model.BasisDef Model.BasisEval Model.Knots Model.Tensor Model.Obj Model.Deriv Model.KnotInsert.
+From SplipyModel Require Import Model.Num Model.BasisDef Model.BasisEval Model.Knots Model.Tensor Model.Obj Model.Deriv Model.KnotInsert Model.Reparam.
 Import ListNotations.
 
 Definition q_basis_evaluate := @basis_evaluate Q NumQ.
@@ -21,4 +21,8 @@ Definition q_basis_insert_knot := @basis_insert_knot Q NumQ.
 Definition q_obj_insert_knots := @obj_insert_knots Q NumQ.
 Definition q_refine_knots := @refine_knots Q NumQ.
 Definition q_knot_spans := @knot_spans Q NumQ.
+Definition q_obj_reverse := @obj_reverse Q NumQ.
+Definition q_obj_swap := @obj_swap Q NumQ.
+Definition q_obj_reparam_dir := @obj_reparam_dir Q NumQ.
+Definition q_obj_reparam_all := @obj_reparam_all Q NumQ.
 Definition q_res_witness (e : err) : res unit := Err e.
